@@ -866,7 +866,7 @@ func genStress(r *vh.Rand, seed uint64, idx, procs int) stressCfg {
 
 func childSeq(f *vh.Flags, o *vh.Out) {
 	r := vh.NewRand(f.Seed)
-	for i := 0; i < f.N; i++ {
+	for i := 0; i < f.N && o.Stats["oracle_fail"] < 5; i++ { // a few failures are enough (each may cost a time-out)
 		seqCase(r.Fork(i), o)
 	}
 }
@@ -874,7 +874,7 @@ func childSeq(f *vh.Flags, o *vh.Out) {
 func childStress(f *vh.Flags, o *vh.Out) {
 	seed := f.Seed ^ uint64(*procs)*104729
 	r := vh.NewRand(seed)
-	for i := 0; i < f.N; i++ {
+	for i := 0; i < f.N && o.Stats["stress_failed"] < 3; i++ {
 		stressCase(genStress(r.Fork(i), seed, i, *procs), o)
 	}
 }
